@@ -8,6 +8,9 @@ impl DetectProp for C07 {
     fn id(&self) -> &'static str {
         "C07"
     }
+    fn directed(&self, thorough: bool) -> Vec<Case> {
+        large_unicode_cases(thorough)
+    }
     fn slice(&self, o: &Outcome) -> String {
         match o {
             Outcome::Ok(v) => format!("ok {}", sorted_join(v.iter().map(|m| format!("{}:{}:{:?}:{}", m.enc, m.bom, m.text, m.subs.join(","))).collect())),
